@@ -1067,6 +1067,9 @@ func (fr *Frame) convertVal(v Val, t types.Type) Val {
 	if isInteger(t) && v.K == KNormal && len(v.C) == 1 && isInteger(v.T) {
 		return fr.convInt(v, v.T, t)
 	}
+	if isFloat(t) && v.K == KNormal && len(v.C) == 1 && v.T != nil && (isInteger(v.T) || isFloat(v.T)) {
+		return fr.floatConv(nil, v, v.T, t) // same uninterpreted functions as the code's conversions
+	}
 	// same-layout conversion (named types)
 	if len(fr.en.layout(t)) == len(v.C) {
 		o := v
